@@ -293,7 +293,19 @@ func c26Case(c *ev.Ctx, r *rand.Rand, caseN int) {
 		}
 		sort.Strings(keys)
 		victim := keys[r.Intn(len(keys))]
-		switch r.Intn(5) {
+		switch r.Intn(6) {
+		case 5: // full migration: no route references one of the types any more
+			from := multidb.TypeName([]string{"t1", "t2"}[r.Intn(2)])
+			for a, v := range rt2 {
+				if v.Type == from {
+					if from == "t1" {
+						v.Type = "t2"
+					} else {
+						v.Type = "t1"
+					}
+					rt2[a] = v
+				}
+			}
 		case 0:
 			v := rt2[victim]
 			v.Name += "2"
